@@ -194,7 +194,7 @@ def main():
                 if code != 0:
                     bad += 1
                     print("ALARM %s exit %d" % (pid, code))
-                    for l in lines[:8]:
+                    for l in lines[:int(os.environ.get("FUZZ_LINES", "8"))]:
                         print("     " + l.strip()[:260])
         print("%s: %d of %d checks silent" % (name, len(ids) - bad, len(ids)))
         return 1 if bad else 0
